@@ -108,6 +108,9 @@ where
       if !throttled {
         let delay = (self.duration_selector)(&value);
         if self.edge.leading {
+          // the item emitted on the leading edge must not be emitted a
+          // second time on the trailing edge of the window it opens.
+          self.trailing_value.rc_deref_mut().take();
           self.observer.next(value)
         }
         let task = OnceTask::new(
